@@ -212,6 +212,9 @@ func (w *world) overlapThenReplay() {
 	w.r.Count("held_connection_scenarios", 1)
 }
 
+// extraFamilies are registered by files behind additional build tags.
+var extraFamilies []func(r *mon.Run, dir string)
+
 var steps = []time.Duration{0, time.Second, 59 * time.Minute, 61 * time.Minute, 2 * time.Hour, 2*time.Hour + 59*time.Minute, 3*time.Hour + time.Minute}
 
 func newWorld(c *mon.Case, r *mon.Run, dir string, seed uint64) *world {
@@ -287,6 +290,10 @@ func TestCheck(t *testing.T) {
 			r.Count("ttl_scenarios", 1)
 			r.Distinct("nontrivial", fmt.Sprint(w.trace))
 		})
+	}
+	// (d) real clock: parallel bursts (burst_test.go, needs the instrumented siphash copy)
+	for _, f := range extraFamilies {
+		f(r, dir)
 	}
 	// (c) PRNG histories
 	n := r.Pick(400, 6000)
